@@ -690,7 +690,11 @@ func oracle(c Case) (evid.Info, error) {
 	}
 
 	// Load into an empty database
-	dst := fakedb.New()
+	var dstOpts []fakedb.Option
+	if c.ZeroBasedDest {
+		dstOpts = append(dstOpts, fakedb.WithFirstID(0))
+	}
+	dst := fakedb.New(dstOpts...)
 	loadRes, err := retriever.Load(ctx, dst, driverName, retriever.LoadOptions{InputDir: dir, BatchSize: c.LoadBatch, VerifyMetrics: c.LoadVerify})
 	if err != nil {
 		return info, fmt.Errorf("Load of a fresh dump into an empty database fails: %w", err)
